@@ -127,6 +127,9 @@ pub fn execute<P: Prop>(prop: &P, hash_seed: u64, case: &P::Case, record: bool) 
         .stack_size(stack)
         .spawn(move || {
             hashseed::set_thread_seed(hash_seed);
+            // configuration axis: a logger is installed and its level is a function of the run (half of the runs
+            // evaluate every trace!/error! argument inside the code under test, half evaluate none)
+            crate::logger::set_for_run(hash_seed);
             let r = match outcome::guarded(|| prop.run(&case, record)) {
                 Ok(r) => r,
                 Err(msg) => {
